@@ -23,7 +23,9 @@ Inductive obs :=
       c_key = the slave's real current admin password (from the simulated slave)
    6  POST /devices/<name>/events on the hub with the device-origin token c_hdr: c_obs = ORefuse for 401, OGrant None else
    7  GET /devices and the intercepted GET /devices/<name>/forward/device: OBits shown_in_list shown_in_forward slave_bit leak;
-      c_plain = a password waits to be provisioned, c_key = that password *)
+      c_plain = a password waits to be provisioned, c_key = that password
+   8  every answer body of every request of the history was searched for every password text (>= 6 characters) and hash
+      ever submitted (documented *password_hash fields of /devices, /webhooks, /reverse excepted): OBits "" "" "" found *)
 (* kinds: 0 consumer header: parse_auth_header called directly (c_obs) and, when the header can travel unchanged over HTTP,
    GET /access with it (c_http); 2 device-origin parse_auth_header (require_usr=False, constant key c_key);
    3 GET /access without header (c_http); 4 GET /device (c_obs = OBits) *)
@@ -125,6 +127,7 @@ Section Run.
     | 6, o =>
         Bool.eqb (is_grant (parse_auth_header mac dec skew (c_now8 c) (c_hdr c) "device" (fun _ => Some (slave_key (c_k c))) false))
                  (obs_grant o)
+    | 8, OBits _ _ _ leak => negb leak
     | 7, OBits a n v leak =>
         let pending := if c_plain c then Some (c_key c) else None in
         (* without a pending password the hub shows the slave's own (cached, possibly older) "set"/"" answer *)
@@ -195,6 +198,7 @@ Section Run.
         (* the slave-events endpoint authenticates exactly the slave's current admin password *)
         meets 2 (relax (c_plain c) (expectation (sha_of sha) mac skew p (c_now8 c) (c_hdr c) (c_cand c) (c_sparsed c) "device"
                                                 (Some (sha_of sha (slave_pw (c_k c)))))) o
+    | 8, OBits _ _ _ leak => negb leak   (* no answer body of the whole history (error answers included) holds a password or hash *)
     | 7, OBits a n v leak =>
         negb leak && is_bit a && is_bit n
         && (if c_plain c then (a =? (if (c_key c =? "")%string then "" else "set"))%string else true)
